@@ -51,6 +51,8 @@ package main
 //@   ensures [C10: the-one-off-initialisation-runs-with-the-cold-start-mutex-held] delta(ColdStartInit) <= 1 && (delta(ColdStartInit) == 1 ==> delta(FrontendLock) >= 1 && delta(FrontendUnlock) >= 1 && first(FrontendLock) < first(ColdStartInit) && first(ColdStartInit) < first(FrontendUnlock))
 //@   ensures [at-most-one-invoke] delta(SandboxInvoke) <= 1 && (readFails(r.Body) ==> delta(SandboxInvoke) == 0 && ghost(httpStatus) == 500)
 //@   ensures [payload-is-the-request-body] delta(SandboxInvoke) == 1 ==> readerContent(lastarg(SandboxInvoke, 2).Payload) == readerContent(r.Body) && readerLen(lastarg(SandboxInvoke, 2).Payload) == readerLen(r.Body) && typeis(lastarg(SandboxInvoke, 1), *ResponseWriterProxy) && fresh(proxyOf(lastarg(SandboxInvoke, 1))) && fresh(lastarg(SandboxInvoke, 2))
+// C01 ("together with ... the decoded client context"): the invocation record carries exactly the base64 decoding of the header
+//@   ensures [C01: the-client-context-is-the-decoded-header] delta(SandboxInvoke) == 1 ==> lastarg(SandboxInvoke, 2).ClientContext == b64dec(hdr(r.Header, "X-Amz-Client-Context"))
 //@   ensures [answer-is-what-the-sandbox-wrote] delta(SandboxInvokeOK) == 1 ==> ghost(httpLastWriter) == ref(w) && ghost(httpLastContent) == contentOf(proxyOf(lastarg(SandboxInvoke, 1)).Body) && ghost(httpLastLen) == len(proxyOf(lastarg(SandboxInvoke, 1)).Body) && ghost(httpWrites) == old(ghost(httpWrites)) + 1 && (proxyOf(lastarg(SandboxInvoke, 1)).StatusCode != 0 ==> ghost(httpStatus) == proxyOf(lastarg(SandboxInvoke, 1)).StatusCode)
 //@   ensures [failure-is-502-with-the-sandbox-body] delta(SandboxInvokeDoneFailed) == 1 ==> ghost(httpStatus) == 502 && ghost(httpLastContent) == contentOf(proxyOf(lastarg(SandboxInvoke, 1)).Body) && ghost(httpWrites) == old(ghost(httpWrites)) + 1
 //@   ensures [timeout-is-answered-once-with-the-timeout-message-only] delta(SandboxInvokeTimedOut) == 1 ==> ghost(httpWrites) == old(ghost(httpWrites)) + 1 && ghost(httpLastWriter) == ref(w) && ghost(httpWriteHeaders) == old(ghost(httpWriteHeaders))
